@@ -3,7 +3,8 @@ import copy
 from collections import Counter
 
 from harness import flatlib as fl
-from harness.core import Property
+from harness.core import Property, canon
+from harness.props import g1common as G
 
 
 def _lists_in(el):
@@ -98,10 +99,19 @@ def apply_mutations(root, schema, kinds, muts):
     return applied
 
 
-def expected_pairs(el, sep, names):
+def expected_pairs(el, sep, names, dict_by_name=False):
     """Independent recursive computation of the pairs an element must emit (any order): uses only
-    children, flattenable, children_flattenable, names/keys and POSITIONS."""
+    children, flattenable, children_flattenable, names/keys and POSITIONS.  `dict_by_name`: a member
+    of a mapping contributes its own `.name` (tree-history family: an Element stored under a key may
+    carry a different name — the property speaks of NAMES on the path) instead of its key."""
     import flatland
+    if dict_by_name:
+        out = [(sep.join(names), el.u)] if el.flattenable else []
+        if el.children_flattenable:
+            for i, child in enumerate(el.children):
+                out += expected_pairs(child, sep, names + ([str(i)] if isinstance(el, flatland.List) else [])
+                                      + ([child.name] if child.name is not None else []), True)
+        return out
     out = []
     if el.flattenable:
         out.append((sep.join(names), el.u))
@@ -151,6 +161,117 @@ def build(case):
     el = cls()
     el.set(fl.decode_native(case["value"]))
     return el
+
+
+# ------------------------------------------------------------------ tree-history family
+# Histories of container calls (the case format, executor and generators of C08/C09:
+# harness/props/g1common.py) run on the real library AND on the Lean tree model
+# (Flatland/Tree.lean through Flatland/TreeJson.lean); after the construction and after every call
+# `root.flatten(sep)` is compared with `Flatland.C07Tree.flattenTree` / `flattenCode` of the model's tree.
+
+TREE_SEPS = ["_", "_", "_", ".", "__", "-", "/", "_0_"]
+QUERY_OPS = ("len", "getitem", "getslice", "contains", "index", "count", "observe", "reversed", "imul_bad")
+
+
+def is_tree(case):
+    return case.get("family") == "tree-history"
+
+
+def _lists_of(ex):
+    import flatland
+    return [e for e, _ in ex.reach() if isinstance(e, flatland.List)]
+
+
+def slots_positional(ex):
+    """every List of the tree names the slot of member i `str(i)` (read through the public API:
+    `member.parent.name`)"""
+    for lst in _lists_of(ex):
+        names = [getattr(getattr(m, "parent", None), "name", None) for m in lst]
+        if names != [str(i) for i in range(len(names))]:
+            return False
+    return True
+
+
+def tree_view(sep):
+    def view(ex, info):
+        pairs = [list(p) for p in ex.root.flatten(sep)]
+        ran = "%s:%s" % (info["kind"], info["op"]["op"]) if info.get("op") and info.get("kind") else None
+        return {"flatten": pairs, "flatten_code": pairs, "positional": slots_positional(ex), "spec_agrees": True,
+                "_ran": ran}
+    return view
+
+
+def tree_check(sep):
+    def check(ex, info):
+        root = ex.root
+        fails = []
+        got = root.flatten(sep)
+        exp = expected_pairs(root, sep, [root.name] if root.name is not None else [], dict_by_name=True)
+        op = (info.get("op") or {}).get("op") if not info.get("init") else "init:" + ex.case["init"]["route"]
+        if Counter(got) != Counter(exp):
+            fails.append({"clause": "keys-are-positions", "step": info["i"], "op": op,
+                          "expected": sorted(map(list, exp)), "observed": sorted(map(list, got))})
+        elif not slots_positional(ex):
+            fails.append({"clause": "slots-named-by-position", "step": info["i"], "op": op,
+                          "expected": "slot i of every List is named str(i)",
+                          "observed": [[getattr(getattr(m, "parent", None), "name", None) for m in l] for l in _lists_of(ex)]})
+        return fails
+    return check
+
+
+def _tree_schema(rng, cid):
+    """schemas whose flat keys pass through List slots, often twice: List of Dict with a nested List"""
+    def sc(k, name=None, subs=(), **kw):
+        d = {"cid": cid(), "k": k, "name": name, "opt": False, "policy": "subset", "minreq": False, "isa": [],
+             "default": None, "subs": list(subs)}
+        d.update(kw)
+        return d
+    r = rng.random()
+    leaf = lambda name=None: sc(rng.choice(["integer", "string"]), name)
+    if r < 0.35:
+        inner = sc(rng.choice(["list", "list", "array", "multi"]), "n", [leaf(rng.choice([None, "m"]))])
+        fields = [leaf("x"), inner] if rng.random() < 0.7 else [inner, leaf("x"), leaf("y")]
+        member = sc(rng.choice(["dict", "dict", "sparse"]), rng.choice([None, None, "d"]), fields,
+                    policy=rng.choice(["subset", "duck"]))
+        return sc("list", rng.choice([None, "l"]), [member])
+    if r < 0.5:
+        return sc("list", rng.choice([None, "l"]), [sc("list", rng.choice([None, "m"]), [leaf(rng.choice([None, "s"]))])])
+    if r < 0.65:
+        return sc("list", rng.choice([None, "l"]), [leaf(rng.choice([None, "s"]))])
+    if r < 0.8:
+        return sc("dict", rng.choice([None, "r"]), [sc("list", "a", [leaf(rng.choice([None, "s"]))]),
+                                                   sc("list", "b", [sc("dict", None, [leaf("x"), leaf("y")])]), leaf("k")])
+    return G.gen_schema(rng, cid, rng.choice([2, 3, 3]), name=rng.choice([None, "r"]),
+                        kinds=["list", "list", "list", "dict", "sparse", "array", "multi"])
+
+
+def gen_tree_case(rng):
+    cid = G.Counter()
+    schema = _tree_schema(rng, cid)
+    hostile = rng.random() < 0.1
+    route = rng.choice(["ctor", "ctor_value", "ctor_value", "ctor_value", "set", "set", "from_defaults", "set_default"])
+    case = {"family": "tree-history", "sep": rng.choice(TREE_SEPS), "schema": schema,
+            "init": {"route": route, "value": G.gen_value(rng, schema, valid=not hostile)}}
+    conts = [s for s in G.walk_schemas(schema) if s["k"] in G.SEQ_KINDS + G.MAP_KINDS]
+    seqs = [s for s in conts if s["k"] in G.SEQ_KINDS]
+    lists = [s for s in seqs if s["k"] == "list"]
+    maps = [s for s in conts if s["k"] in G.MAP_KINDS]
+    ops = []
+    for _ in range(rng.choice([1, 2, 3, 4, 6, 8, 12])):
+        o = {"t": rng.randint(0, 7)}
+        if seqs:
+            sq = rng.choice(lists if lists and rng.random() < 0.7 else seqs)
+            for _retry in range(4):
+                o["s"] = G.gen_seq_op(rng, sq["subs"][0], valid=not hostile)
+                if o["s"]["op"] not in QUERY_OPS:
+                    break
+        if maps:
+            o["m"] = G.gen_map_op(rng, rng.choice(maps), valid=not hostile)
+        ops.append(o)
+    case["ops"] = ops
+    if G.has_flat(case):
+        case["nomodel"] = True
+    return case
 
 
 class C07(Property):
@@ -215,6 +336,11 @@ class C07(Property):
         return [joined_in_dict, renumber, stepped, negpop, overlap]
 
     def generate(self, rng, n, tier):
+        yield from self._generate_flat(rng, n, tier)
+        # tree-history family: as many histories again, run on the real code AND the Lean tree model
+        yield from G.mark_unmodelled(self, [gen_tree_case(rng) for _ in range(n)])
+
+    def _generate_flat(self, rng, n, tier):
         for _ in range(n):
             sep = rng.choice(fl.SEP_POOL)
             kinds = []
@@ -246,6 +372,17 @@ class C07(Property):
                 muts.append(m)
             yield {"schema": schema, "kinds": kinds, "sep": sep, "value": value, "muts": muts}
 
+    _tree_cache = (None, None)
+
+    def _run_tree(self, case):
+        key = canon(case)
+        if self._tree_cache[0] == key:
+            return self._tree_cache[1]
+        ex = G.Exec(case, tree_view(case["sep"]), tree_check(case["sep"]))
+        obs = ex.run()
+        self._tree_cache = (key, (obs, ex.failures))
+        return self._tree_cache[1]
+
     def _run(self, case):
         try:
             el = build(case)
@@ -255,6 +392,8 @@ class C07(Property):
         return el, applied
 
     def run_impl(self, case):
+        if is_tree(case):
+            return self._run_tree(case)[0]
         el, applied = self._run(case)
         if el is None:
             return applied
@@ -267,9 +406,13 @@ class C07(Property):
                 "_applied": applied}
 
     def has_model(self, case):
+        if is_tree(case):
+            return not case.get("nomodel")
         return not fl.digit_sep(case["sep"])
 
     def model_input(self, case, obs):
+        if is_tree(case):
+            return case
         if not obs or "skip" in obs or "_elem" not in obs:
             return {"schema": case["schema"], "sep": case["sep"], "elem": {"leaf": ""}, "env": fl.make_env([], [], [])}
         return {"schema": case["schema"], "sep": case["sep"], "elem": obs["_elem"], "env": obs["_env"]}
@@ -277,10 +420,31 @@ class C07(Property):
     def compare(self, impl_obs, model_obs):
         if impl_obs and "skip" in impl_obs:
             return None
+        if isinstance(model_obs, dict) and model_obs.get("unsupported"):
+            return None
+        if impl_obs and "steps" in impl_obs and isinstance(model_obs, dict) and "steps" in model_obs:
+            # tree-history family: name the first step at which the tree model and the code part
+            a, b = impl_obs["steps"], model_obs["steps"]
+            for i, (x, y) in enumerate(zip(a, b)):
+                if any("view_raises" in (st.get("view") or {}) for st in (x,)):
+                    return "step %d: observing the real tree raised %s" % (i, x["view"]["view_raises"])
+                for k in ("out",):
+                    if canon(x[k]) != canon(y[k]):
+                        return "step %d: call outcome impl=%s model=%s" % (i, canon(x[k])[:200], canon(y[k])[:200])
+                for k in ("flatten", "flatten_code", "positional", "spec_agrees"):
+                    if canon(x["view"].get(k)) != canon(y["view"].get(k)):
+                        return "step %d: %s impl=%s model=%s" % (i, k, canon(x["view"].get(k))[:300], canon(y["view"].get(k))[:300])
+            if len(a) != len(b):
+                return "number of steps impl=%d model=%d" % (len(a), len(b))
+            if model_obs.get("spec_agrees") is False:
+                return "flattenTree differs from the positional spec on a positional tree (spec_agrees=false)"
+            return None
         return super().compare(impl_obs, model_obs)
 
     def oracle(self, case):
         import flatland
+        if is_tree(case):
+            return list(self._run_tree(case)[1])
         el, applied = self._run(case)
         if el is None:
             return []
@@ -346,11 +510,49 @@ class C07(Property):
         return None
 
     def nontrivial(self, case, obs):
+        if is_tree(case):
+            # at least two calls changed what flatten() returns, and a key passes through a List slot
+            views = [st["view"] for st in obs["steps"]]
+            if any("view_raises" in v for v in views):
+                return True
+            changed = sum(1 for a, b in zip(views, views[1:]) if a["flatten"] != b["flatten"])
+            return changed >= 2 and any(len(v["flatten"]) >= 2 for v in views)
         if "skip" in obs:
             return False
         return len(obs["flatten"]) >= 3 and case["schema"]["t"] not in ("leaf", "joined")
 
     def tags(self, case, obs):
+        if is_tree(case):
+            if any("view_raises" in st["view"] for st in obs["steps"]):
+                return ["tree:view-raises"]
+            t = ["family=tree-history", "tree:model=" + ("oracle-only" if case.get("nomodel") else "compared"),
+                 "tree:root=" + case["schema"]["k"], "tree:route=" + case["init"]["route"], "tree:sep=%r" % case["sep"],
+                 "tree:ops=%d" % len(case["ops"])]
+            kinds = {x["k"] for x in G.walk_schemas(case["schema"])}
+            nested = any(x["k"] == "list" and any(y["k"] == "list" for y in G.walk_schemas(x["subs"][0]))
+                         for x in G.walk_schemas(case["schema"]))
+            if nested:
+                t.append("tree:nested-lists")
+            for k in sorted(kinds):
+                t.append("tree:has-" + k)
+            prev = obs["steps"][0]["view"]
+            for o, st in zip(case["ops"], obs["steps"][1:]):
+                out = st["out"]
+                if isinstance(out, dict) and "skip" in out:
+                    t.append("tree:skip:" + out["skip"].split(":")[0])
+                    prev = st["view"]
+                    continue
+                ran = st["view"].get("_ran")
+                if ran:
+                    res = out["exc"] if isinstance(out, dict) and "exc" in out else "ok"
+                    moved = "changed" if st["view"]["flatten"] != prev["flatten"] else "same"
+                    t.append("tree:ran:%s:%s" % (ran, "ok" if res == "ok" else "raised"))
+                    t.append("tree:step:%s:%s" % (res, moved))
+                    if moved == "changed":
+                        t.append("tree:flatten-changed-by:" + ran)
+                prev = st["view"]
+            t.append("tree:maxpairs=%d" % min(20, max(len(st["view"]["flatten"]) for st in obs["steps"])))
+            return sorted(set(t))
         if "skip" in obs:
             return ["skipped-set-rejected"]
         t = ["pairs=%d" % min(len(obs["flatten"]), 20), "sep=%r" % case["sep"]]
@@ -362,6 +564,13 @@ class C07(Property):
         return list(dict.fromkeys(t))
 
     def shrink_candidates(self, case):
+        if is_tree(case):
+            for c in G.shrink_history(case):
+                c["family"], c["sep"] = "tree-history", case["sep"]
+                yield c
+            if case["sep"] != "_":
+                yield dict(copy.deepcopy(case), sep="_")
+            return
         for i in range(len(case.get("muts", []))):
             c = copy.deepcopy(case)
             del c["muts"][i]
